@@ -47,4 +47,15 @@ def SizeOk (b : Bytes) : Prop := b.length < 2 ^ 64
 /-- the integer a getter result stands for, by the signedness of the getter's return type -/
 def resultInt (signed : Bool) {w : Nat} (n : BitVec w) : Int := if signed then n.toInt else (n.toNat : Int)
 
+/-- width in bits of an integer value's C type (LP64) -/
+def MVal.width : MVal → Nat
+  | .int _ | .uint _ => 32
+  | .long _ | .ulong _ | .llong _ | .ullong _ => 64
+  | _ => 0
+
+/-- the text `toString()` shows for an integer `d` held in a type of `w` bits: decimal, blank, and the
+    hexadecimal two's-complement pattern at the type's own width in brackets -/
+def integerText (d : Int) (w : Nat) : Bytes :=
+  decInt d ++ ascii " " ++ ascii "(0x" ++ hexNat (d % (2 ^ w : Int)).toNat ++ ascii ")"
+
 end Mock
